@@ -251,7 +251,15 @@ package fshelper
 //@   at_call Filespace.MkdirAll requires $recv == destfs && $0 == subPath
 
 // tree copy: the source is only read; per-node work is done by the callbacks above
+// and the result is goaterr.ToError of the loop's error list, read after the loop has been waited for
 //@ func Copy [C04 C06]
-//@   layers contract
+//@   layers contract trace
 //@   requires srcfs != nil && destfs != nil
+//@   trace (*Loop).Run as RUN
+//@   trace (*Loop).Wait as WAIT
+//@   trace (*Loop).Errors as ERRS bind errs
+//@   trace ToError as TOERR bind te
+//@   trace_ensures true : RUN WAIT ERRS TOERR $
+//@   at_call ToError requires $0 == errs
+//@   ensures err == te
 //@   only_calls srcfs unless srcfs == destfs : ReadDir IsExist IsFile IsDir ReadFile Reader Lstat Filespace
